@@ -249,3 +249,16 @@ PROPS["C13"] = dict(
 )
 LEVEL_TEXT["C13"] = "Stateless model checking of the real code: real OS threads run the real atomic methods under a token-passing scheduler that owns every interleaving decision at atomic-operation granularity; all schedules within a preemption bound are explored by re-execution (CHESS-style iterative context bounding), with executions containing compare-exchange retries counted as proof that threads collided."
 TECHNIQUE["C13"] = "controlled-scheduler stateless exploration of real threads (DFS over schedules with preemption bounding) with per-schedule linearizability / final-state oracle"
+
+PROPS["C11"] = dict(
+    level="exploration",
+    engine="E1",
+    parts=[dict(bin="e1_space", timeout_s={"quick": 900, "thorough": 7200})],
+    rule="rank/select: EVERY len in 0..=L and every power of two +-1 up to 2^26 x densities {ones, zeros, one per 512, alternating}; bit vectors and bit-field vectors built or grown only: every len 0..=300 x 9 widths x {new, new_unaligned, push, resize}; Elias-Fano (plain build): ALL (n,u) with n in 0..=64, u in 0..=U plus the split probes n 2^k +-1 and 2^63, MAX; functions/filters: arithmetic num_vertices x num_shards of every ShardEdge for EVERY n <= N then a 1% geometric grid to 10^12 with the largest admissible shard floor(1.01 n / shards), and real builds of functions and filters at regime boundaries for 4 value widths; non-trivial = non-empty structure",
+    alphabet="additive constants fixed in DESIGN.md section 5 (C11): rank structures and Select9 + 1024 bits; Elias-Fano + 1152 bits; functions 2 segments per shard (MWHC: 3 x 128 cells per shard) + 8 cells; 1.135 applies to the default sharded logic from 100000 keys",
+    bound={"quick": "L=5000, U=600, N=60000", "thorough": "L=70000, U=4096, N=10^6"},
+    oracle="mem_size(SizeFlags::default()) of the structure minus that of the wrapped structure <= documented fraction of the bit length + constant; closed formulas from the property text",
+    assumptions=STRICT + ["mem_size as reported by mem_dbg is the measure named by the property"],
+)
+LEVEL_TEXT["C11"] = "Exhaustive enumeration of every size in a range (plus boundaries up to 2^26 bits / 10^12 keys by arithmetic) for every structure, mem_size compared with the documented bound plus a fixed additive constant."
+TECHNIQUE["C11"] = "bounded-exhaustive enumeration of sizes against closed-form space bounds"
